@@ -36,6 +36,7 @@ func checkC05(c any, r *Rec) error {
 	// sequential reference on fresh compiles
 	type res struct{ out, err string }
 	want := map[string]res{}
+	wantBlocks := map[string]res{}
 	key := func(v, f int) string { return fmt.Sprintf("%d/%d", v, f) }
 	for g := 0; g < cs.K; g++ {
 		v := cs.Variants[g%len(cs.Variants)]
@@ -52,6 +53,10 @@ func checkC05(c any, r *Rec) error {
 		}
 		o, e := c04Exec(fresh, c04Step{Variant: v, FailAt: f, Entry: "Execute"})
 		want[key(v, f)] = res{o, e}
+		if _, fresh2, _, err := compileProgram(cs.Prog, cs.Trim, cs.LStrip); err == nil {
+			o, e = c04Exec(fresh2, c04Step{Variant: v, FailAt: f, Entry: "ExecuteBlocks"})
+			wantBlocks[key(v, f)] = res{o, e}
+		}
 	}
 	var wg sync.WaitGroup
 	start := make(chan struct{})
@@ -67,7 +72,7 @@ func checkC05(c any, r *Rec) error {
 			if cs.FailAt > 0 && g%2 == 1 {
 				f = cs.FailAt
 			}
-			entries := []string{"Execute", "ExecuteBytes", "ExecuteWriter", "ExecuteWriterUnbuffered"}
+			entries := []string{"Execute", "ExecuteBytes", "ExecuteWriter", "ExecuteWriterUnbuffered", "ExecuteBlocks"}
 			<-start
 			n := atomic.AddInt32(&running, 1)
 			for {
@@ -80,6 +85,9 @@ func checkC05(c any, r *Rec) error {
 				entry := entries[(g+i)%len(entries)]
 				o, e := c04Exec(shared, c04Step{Variant: v, FailAt: f, Entry: entry})
 				w := want[key(v, f)]
+				if entry == "ExecuteBlocks" {
+					w = wantBlocks[key(v, f)]
+				}
 				if entry == "ExecuteWriterUnbuffered" && e != "<nil>" {
 					o = w.out // partial output allowed
 				}
@@ -135,7 +143,7 @@ func checkC05(c any, r *Rec) error {
 var _ = register(&propSpec{
 	ID:    "C05.concurrent",
 	Journ: true,
-	Rule:  "C04's deterministic programs (single and multi-file, lazy includes, macros, blocks, cycle/ifchanged, both trim options) compiled once and executed by k=2-8 goroutines x 1-12 repetitions released together by a barrier, through all four entry points, some with injected faults, while 0-2 more goroutines call FromCache/FromFile on the same set; built with -race (GORACE=halt_on_error): a race report kills the worker and the journalled workload is confirmed in fresh processes; every concurrent result must equal the sequential fresh-compile reference. Non-trivial: >= 2 goroutines were inside Execute at the same time and the program has a tag with a body.",
+	Rule:  "C04's deterministic programs (single and multi-file, lazy includes, macros, blocks, cycle/ifchanged, both trim options) compiled once and executed by k=2-8 goroutines x 1-12 repetitions released together by a barrier, through all four entry points and ExecuteBlocks, some with injected faults, while 0-2 more goroutines call FromCache/FromFile on the same set; built with -race (GORACE=halt_on_error): a race report kills the worker and the journalled workload is confirmed in fresh processes; every concurrent result must equal the sequential fresh-compile reference. Non-trivial: >= 2 goroutines were inside Execute at the same time and the program has a tag with a body.",
 	Gen: func(t *rapid.T) any {
 		k := drawInt(t, 2, 8, "k")
 		cs := &c05Case{
